@@ -155,4 +155,48 @@ func runC27(c *eng.Ctx) {
 	}
 	c.Check("R4", "matcher-positive-control", fn.Pos(), pc >= 1, "the direct-write matcher does match where such calls exist (package filesystem)", fmt.Sprintf("%d site(s)", pc))
 	c.Floor("R4", 6)
+
+	// R6: the bytes a marshal callback hands to MarshalAndSave are the save's own.
+	// MarshalAndSave writes them after the callback has returned and holds no lock
+	// of its own, so bytes that alias package-level state (a reused buffer) can be
+	// overwritten by a concurrent save while they are being written: the file is
+	// then complete in length and neither the old nor the new content.
+	nm := 0
+	for _, f := range c.P.ModuleFuncs(encodingPkg) {
+		for _, call := range eng.Calls(f) {
+			if eng.CalleeName(call) != "encoding.MarshalAndSave" || len(call.Common().Args) < 2 {
+				continue
+			}
+			var cb *ssa.Function
+			switch m := call.Common().Args[1].(type) {
+			case *ssa.MakeClosure:
+				cb, _ = m.Fn.(*ssa.Function)
+			case *ssa.Function:
+				cb = m
+			}
+			if cb == nil {
+				c.Check("R6", "marshal-callback-resolved@"+f.Name(), call.Pos(), false, "the marshal callback handed to MarshalAndSave is a function literal or a named function")
+				continue
+			}
+			nm++
+			shared := ""
+			for _, r := range eng.Returns(cb) {
+				res := eng.RetResults(r)
+				if len(res) == 0 {
+					continue
+				}
+				if eng.MayDependOn(res[0], func(v ssa.Value) bool {
+					g, ok := v.(*ssa.Global)
+					if ok {
+						shared = g.Name()
+					}
+					return ok
+				}) {
+					break
+				}
+			}
+			c.Check("R6", "saved-bytes-not-shared@"+f.Name(), call.Pos(), shared == "", "the bytes returned by the marshal callback are not derived from a package-level variable", shared)
+		}
+	}
+	c.Floor("R6", 1)
 }
